@@ -1,402 +1,31 @@
 /-
   Native functions of func.go / operator.go at value level (DESIGN §3.2, C03): each is a
-  transliteration of the Go type switch including WHICH error is raised.  Natives that are
-  not modelled answer `none` from `callNative`, which the evaluator turns into the explicit
-  outcome `unmodelled` (never into a value).
+  transliteration of the Go type switch including WHICH error is raised and its text.
+  The pieces live in Model/Native/*.lean:
+
+    Base   errors and their messages (error.go, preview.go), toInt/toIntCeil/toFloat, clampIndex
+    Index  funcIndex2, index, indexString, funcSlice, slice, sliceString, indices/index/rindex
+    Ops    binopTypeSwitch cells of + - * / %, deepMergeObjects, repeatString, keys, has, add,
+           flatten, contains, reverse, transpose, error shapes of sort/min/max/group/unique
+    Str    startswith … trim, explode/implode, split/1, join, case mapping, toboolean, tonumber
+           (validNumber + parseNumber), tostring/tojson/fromjson, @format natives, _captures
+    Path   getpath / setpath / delpaths (update, deleteEmpty as mark-then-sweep)
+    Math   the exactly computable math functions and the classifiers
+    Time   gmtime / mktime
+
+  This file has the dispatcher `callNative` (the table `internalFuncs`): natives that are not
+  modelled answer `none`, which the evaluator turns into the explicit outcome `unmodelled`
+  (never into a value); an input a modelled native does not cover is the error
+  `Err.builtin "UNMODELLED" []`.
 -/
-import Gojq.Model.Arith
-import Gojq.Model.Compare
-import Gojq.Model.Sort
-import Gojq.Model.Utf8
-import Gojq.Model.Encode
+import Gojq.Model.Native.Base
+import Gojq.Model.Native.Index
+import Gojq.Model.Native.Ops
+import Gojq.Model.Native.Str
+import Gojq.Model.Native.Path
+import Gojq.Model.Native.Math
+import Gojq.Model.Native.Time
 namespace Gojq
-
-/-- errors as values flowing through the evaluator -/
-inductive Err where
-  /-- `error(v)`: an `exitCodeError` (a `ValueError`; `catch` yields `v`) -/
-  | user (v : JV)
-  /-- a built-in error: class plus the values its message is built from -/
-  | builtin (kind : String) (args : List JV)
-  /-- `break $label` with the identity of the label instance -/
-  | brk (id : Nat)
-  /-- `halt` / `halt_error` -/
-  | halt (v : JV) (code : Int)
-  deriving Inhabited
-
-abbrev NRes := Except Err JV
-
-def B (s : String) : Bytes := Bytes.ofString s
-
-/-! ### Preview / error messages (preview.go, error.go) -/
-
-/-- `Preview(v)`: the encoder's output cut at 32 bytes, truncated to 30 with a trailing marker.
-    `none` when the value contains a float whose digits the encoder model does not produce. -/
-def preview (v : JV) : Option Bytes :=
-  if !Encode.modelled v then none else
-  let full := Encode.encodeValue v
-  let bs := full.take 32
-  if bs.length ≤ 30 then some bs else
-  let trailing : Bytes := match v with
-    | .str _ => B " ...\""
-    | .arr _ => B " ...]"
-    | .obj _ => B " ...}"
-    | _ => B " ..."
-  -- drop whole runes from the end until it fits (utf8.DecodeLastRune: an invalid tail byte counts 1)
-  let limit := 30 - trailing.length
-  let rec cut (fuel : Nat) (bs : Bytes) : Bytes :=
-    match fuel with
-    | 0 => bs
-    | fuel + 1 =>
-      if bs.length ≤ limit then bs else
-      -- size of the last rune
-      let n := bs.length
-      let tryW (w : Nat) : Bool :=
-        w ≤ n && (let t := bs.drop (n - w); let (_, w', ok) := Utf8.decodeRune t; ok && w' == w)
-      let size := if tryW 1 then 1 else if tryW 2 then 2 else if tryW 3 then 3 else if tryW 4 then 4 else 1
-      cut fuel (bs.take (n - size))
-  some (cut 40 bs ++ trailing)
-
-def typeErrorPreview (v : JV) : Option Bytes :=
-  match v with
-  | .null => some (B "null")
-  | v => (preview v).map fun p => B v.typeName ++ B " (" ++ p ++ B ")"
-
-/-- the text of a built-in error (`Error()`), when the model computes it -/
-def Err.message : Err → Option Bytes
-  | .builtin kind args =>
-    let tp (v : JV) := typeErrorPreview v
-    match kind, args with
-    | "expectedObject", [v] => (tp v).map (B "expected an object but got: " ++ ·)
-    | "expectedArray", [v] => (tp v).map (B "expected an array but got: " ++ ·)
-    | "iterator", [v] => (tp v).map (B "cannot iterate over: " ++ ·)
-    | "objectKeyNotString", [v] => (tp v).map (B "expected a string for object key but got: " ++ ·)
-    | "arrayIndexNotNumber", [v] => (tp v).map (B "expected a number for indexing an array but got: " ++ ·)
-    | "stringIndexNotNumber", [v] => (tp v).map (B "expected a number for indexing a string but got: " ++ ·)
-    | "expectedStartEnd", [v] => (tp v).map (B "expected \"start\" and \"end\" for slicing but got: " ++ ·)
-    | "invalidPath", [v] => (tp v).map (B "invalid path against: " ++ ·)
-    | "invalidPathIter", [v] => (tp v).map (B "invalid path on iterating against: " ++ ·)
-    | "unary", [.str name, v] => (tp v).map (B "cannot " ++ name ++ B ": " ++ ·)
-    | "binop", [.str name, l, r] => do
-      let a ← tp l; let b ← tp r
-      pure (B "cannot " ++ name ++ B ": " ++ a ++ B " and " ++ b)
-    | "zeroDivision", [l, r] => do
-      let a ← tp l; let b ← tp r
-      pure (B "cannot divide " ++ a ++ B " by: " ++ b)
-    | "zeroModulo", [l, r] => do
-      let a ← tp l; let b ← tp r
-      pure (B "cannot modulo " ++ a ++ B " by: " ++ b)
-    | "func0", [.str name, v] => (tp v).map (name ++ B " cannot be applied to: " ++ ·)
-    | "func1", [.str name, v, w] => do
-      let a ← tp v; let p ← preview w
-      pure (name ++ B "(" ++ p ++ B ") cannot be applied to: " ++ a)
-    | "func2", [.str name, v, w, x] => do
-      let a ← tp v; let p ← preview w; let q ← preview x
-      pure (name ++ B "(" ++ p ++ B "; " ++ q ++ B ") cannot be applied to: " ++ a)
-    | _, _ => none
-  | _ => none
-
-def errExpectedObject (v : JV) : Err := .builtin "expectedObject" [v]
-def errExpectedArray (v : JV) : Err := .builtin "expectedArray" [v]
-def errFunc0 (name : String) (v : JV) : Err := .builtin "func0" [.str (B name), v]
-def errFunc1 (name : String) (v w : JV) : Err := .builtin "func1" [.str (B name), v, w]
-def errBinop (name : String) (l r : JV) : Err := .builtin "binop" [.str (B name), l, r]
-
-/-! ### numeric conversions (func.go: toInt, toIntCeil, toFloat) -/
-
-/-- `toInt`: saturating conversion to Go `int` -/
-def toInt? : JV → Option Int
-  | .num (.int z) => some (if z < minInt then minInt else if z > maxInt then maxInt else z)
-  | .num n => some (floatToInt n)
-  | _ => none
-
-/-- `math.Ceil` on a float carrier -/
-def fceil : Num → Num
-  | .flt q => let c := q.ceil; if c == 0 && q < 0 then .nzero else .flt (c : Rat)
-  | n => n
-
-def ffloor : Num → Num
-  | .flt q => .flt (q.floor : Rat)
-  | n => n
-
-def toIntCeil? : JV → Option Int
-  | .num (.int z) => toInt? (.num (.int z))
-  | .num n => some (floatToInt (fceil n))
-  | _ => none
-
-def toFloat? : JV → Option Num
-  | .num n => some n.toFlt
-  | _ => none
-
-/-- `clampIndex(i, minimum, maximum)` -/
-def clampIndex (i minimum maximum : Int) : Int :=
-  let i := if i < 0 then wrap64 (i + maximum) else i
-  if i < minimum then minimum else if i < maximum then i else maximum
-
-/-! ### indexing and slicing (funcIndex2, index, indexString, funcSlice, slice, sliceString) -/
-
-def jvInt (z : Int) : JV := .num (.int z)
-
-def indexArr (vs : List JV) (i : Int) : JV :=
-  let i := clampIndex i (-1) vs.length
-  if 0 ≤ i ∧ i < vs.length then vs.getD i.toNat .null else .null
-
-def indexStr (s : Bytes) (i : Int) : JV :=
-  let rs := Utf8.runes s
-  let i := clampIndex i (-1) rs.length
-  if 0 ≤ i ∧ i < rs.length then .str (Utf8.encodeRune (rs.getD i.toNat 0)) else .null
-
-def sliceBounds (len : Nat) (e s : JV) (mkErr : JV → Err) : Except Err (Nat × Nat) := do
-  let start ← match s with
-    | .null => pure 0
-    | s => match toInt? s with
-      | some i => pure (clampIndex i 0 len)
-      | none => throw (mkErr s)
-  let end_ ← match e with
-    | .null => pure (len : Int)
-    | e => match toIntCeil? e with
-      | some i => pure (clampIndex i start len)
-      | none => throw (mkErr e)
-  pure (start.toNat, end_.toNat)
-
-/-- byte offset of the `k`-th rune boundary of `s` (k ≤ number of runes) -/
-def runeOffset (s : Bytes) (k : Nat) : Nat :=
-  let rec go (fuel : Nat) (s : Bytes) (k off : Nat) : Nat :=
-    match fuel, k, s with
-    | 0, _, _ => off
-    | _, 0, _ => off
-    | _, _, [] => off
-    | fuel + 1, k + 1, s =>
-      let (_, w, _) := Utf8.decodeRune s
-      let w := max w 1
-      go fuel (s.drop w) k (off + w)
-  go (s.length + 1) s k 0
-
-def funcSlice (v e s : JV) : NRes :=
-  match v with
-  | .null => pure .null
-  | .arr vs => do
-    let (a, b) ← sliceBounds vs.length e s (fun x => .builtin "arrayIndexNotNumber" [x])
-    pure (.arr ((vs.drop a).take (b - a)))
-  | .str str => do
-    let l := (Utf8.runes str).length
-    let (a, b) ← sliceBounds l e s (fun x => .builtin "stringIndexNotNumber" [x])
-    let sa := if a < l then runeOffset str a else str.length
-    let sb := if b < l then runeOffset str b else str.length
-    pure (.str ((str.drop sa).take (sb - sa)))
-  | v => throw (errExpectedArray v)
-
-/-- positions at which `xs` occurs in `vs` (`indices`) -/
-def indicesArr (vs xs : List JV) : List JV :=
-  if xs.isEmpty then [] else
-  let rec go (fuel : Nat) (vs : List JV) (i : Nat) (acc : List JV) : List JV :=
-    match fuel, vs with
-    | 0, _ => acc.reverse
-    | _, [] => acc.reverse
-    | fuel + 1, v :: rest =>
-      let here : Bool := decide ((v :: rest).length ≥ xs.length) &&
-        (((v :: rest).take xs.length).zip xs).all (fun (a, b) => cmp a b == .eq)
-      go fuel rest (i + 1) (if here then jvInt (i : Nat) :: acc else acc)
-  go (vs.length + 1) vs 0 []
-
-/-- `funcIndex2(_, v, x)`: `v[x]` -/
-def funcIndex2 (v x : JV) : NRes :=
-  match x with
-  | .str k =>
-    match v with
-    | .null => pure .null
-    | .obj kvs => pure ((kvLookup k kvs).getD .null)
-    | v => throw (errExpectedObject v)
-  | .num _ =>
-    let i := (toInt? x).getD 0
-    match v with
-    | .null => pure .null
-    | .arr vs => pure (indexArr vs i)
-    | .str s => pure (indexStr s i)
-    | v => throw (errExpectedArray v)
-  | .arr xs =>
-    match v with
-    | .null => pure .null
-    | .arr vs => pure (.arr (indicesArr vs xs))
-    | v => throw (errExpectedArray v)
-  | .obj kvs =>
-    match v with
-    | .null => pure .null
-    | v =>
-      match kvLookup (B "start") kvs, kvLookup (B "end") kvs with
-      | some s, some e => funcSlice v e s
-      | _, _ => throw (.builtin "expectedStartEnd" [x])
-  | x =>
-    match v with
-    | .arr _ => throw (.builtin "arrayIndexNotNumber" [x])
-    | .str _ => throw (.builtin "stringIndexNotNumber" [x])
-    | _ => throw (.builtin "objectKeyNotString" [x])
-
-/-! ### operators on values (operator.go) -/
-
-def isFalsy : JV → Bool
-  | .null => true | .bool false => true | _ => false
-
-mutual
-  /-- `deepMergeObjects(l, r)` -/
-  def deepMerge : List (Bytes × JV) → List (Bytes × JV) → List (Bytes × JV)
-    | l, [] => l
-    | l, (k, v) :: rest =>
-      let v' := match kvLookup k l, v with
-        | some (.obj lk), .obj rv => JV.obj (deepMergeFuel lk rv)
-        | _, v => v
-      deepMerge (kvInsert k v' l) rest
-  /-- the recursive call goes through a structurally smaller right operand -/
-  def deepMergeFuel : List (Bytes × JV) → List (Bytes × JV) → List (Bytes × JV)
-    | l, [] => l
-    | l, (k, v) :: rest =>
-      let v' := match kvLookup k l, v with
-        | some (.obj lk), .obj rv => JV.obj (deepMergeFuel lk rv)
-        | _, v => v
-      deepMergeFuel (kvInsert k v' l) rest
-end
-
-/-- `repeatString(s, n)` -/
-def repeatString (s : Bytes) (n : Num) : NRes :=
-  -- lt(n, 0): n < 0 || isNaN(n)
-  if fltLt n (.flt 0) || n.isNaN then pure .null else
-  let c : Int := match n with
-    | .inf _ => 2147483647
-    | n => let i := floatToInt n; if i > 2147483647 then 2147483647 else i
-  if (s.length : Int) * c ≥ 2147483647 then throw (.builtin "repeatStringTooLarge" [.str s, .num n])
-  else if s.isEmpty then pure (.str [])
-  else if (s.length : Int) * c > 1000000 then throw (.builtin "UNMODELLED" [])   -- too large to materialise in the model
-  else pure (.str (List.replicate c.toNat s).flatten)
-
-def opAdd (l r : JV) : NRes :=
-  match l, r with
-  | .num a, .num b => pure (.num (opAddNum a b))
-  | .str a, .str b => pure (.str (a ++ b))
-  | .arr a, .arr b => pure (.arr (a ++ b))
-  | .obj a, .obj b => pure (.obj (b.foldl (fun acc (k, v) => kvInsert k v acc) a))
-  | .null, r => pure r
-  | l, .null => pure l
-  | l, r => throw (errBinop "add" l r)
-
-def opSub (l r : JV) : NRes :=
-  match l, r with
-  | .num a, .num b => pure (.num (opSubNum a b))
-  | .arr a, .arr b => pure (.arr (a.filter fun x => !(b.any fun y => cmp x y == .eq)))
-  | l, r => throw (errBinop "subtract" l r)
-
-def opMul (l r : JV) : NRes :=
-  match l, r with
-  | .num a, .num b => pure (.num (opMulNum a b))
-  | .obj a, .obj b => pure (.obj (deepMerge a b))
-  | .str s, .num n => repeatString s n.toFlt
-  | .num n, .str s => repeatString s n.toFlt
-  | l, r => throw (errBinop "multiply" l r)
-
-/-- `strings.Split(l, r)` for `r ≠ ""`; for `r = ""` Go splits after each UTF-8 sequence -/
-def splitBytes (s sep : Bytes) : List Bytes :=
-  if sep.isEmpty then
-    let rec goE (fuel : Nat) (s : Bytes) (acc : List Bytes) : List Bytes :=
-      match fuel, s with
-      | 0, _ => acc.reverse
-      | _, [] => acc.reverse
-      | fuel + 1, s =>
-        let (_, w, _) := Utf8.decodeRune s
-        let w := max w 1
-        goE fuel (s.drop w) (s.take w :: acc)
-    goE (s.length + 1) s []
-  else
-    let rec go (fuel : Nat) (s cur : Bytes) (acc : List Bytes) : List Bytes :=
-      match fuel, s with
-      | 0, _ => (cur.reverse :: acc).reverse
-      | _, [] => (cur.reverse :: acc).reverse
-      | fuel + 1, c :: rest =>
-        if (c :: rest).take sep.length == sep then go fuel ((c :: rest).drop sep.length) [] (cur.reverse :: acc)
-        else go fuel rest (c :: cur) acc
-    go (s.length + 1) s [] []
-
-def opDiv (l r : JV) : NRes :=
-  match l, r with
-  | .num a, .num b =>
-    match opDivNum a b with
-    | .ok n => pure (.num n)
-    | .error _ => throw (.builtin "zeroDivision" [l, r])
-  | .str a, .str b => if a.isEmpty then pure (.arr []) else pure (.arr ((splitBytes a b).map .str))
-  | l, r => throw (errBinop "divide" l r)
-
-def opMod (l r : JV) : NRes :=
-  match l, r with
-  | .num a, .num b =>
-    match opModNum a b with
-    | .ok n => pure (.num n)
-    | .error _ => throw (.builtin "zeroModulo" [l, r])
-  | l, r => throw (errBinop "modulo" l r)
-
-/-! ### assorted natives -/
-
-def keysOf : JV → Option (List JV)
-  | .arr vs => some ((List.range vs.length).map fun i => jvInt (i : Nat))
-  | .obj kvs => some (kvs.map fun (k, _) => .str k)
-  | _ => none
-
-def valuesOf : JV → Option (List JV)
-  | .arr vs => some vs
-  | .obj kvs => some (kvs.map (·.2))
-  | _ => none
-
-/-- `add` (func.go): a left fold with `funcOpAdd`, nulls skipped -/
-def addAll (xs : List JV) : NRes :=
-  xs.foldlM (fun acc x => match x with
-    | .null => pure acc
-    | x => opAdd acc x) .null
-
-mutual
-  /-- `flatten(xs, vs, depth)` with depth as an exact rational (−1 = unlimited) -/
-  def flattenAux (depth : Rat) : List JV → List JV
-    | [] => []
-    | v :: rest =>
-      (match v with
-        | .arr vs => if depth != 0 then flattenAuxList (depth - 1) vs else [v]
-        | v => [v]) ++ flattenAux depth rest
-  def flattenAuxList (depth : Rat) : List JV → List JV
-    | [] => []
-    | v :: rest =>
-      (match v with
-        | .arr vs => if depth != 0 then flattenAuxList (depth - 1) vs else [v]
-        | v => [v]) ++ flattenAuxList depth rest
-end
-
-mutual
-  /-- `funcContains` -/
-  def contains : JV → JV → Option Bool
-    | .arr l, .arr r => some (containsAll l r)
-    | .obj l, .obj r => some (containsObj l r)
-    | .str l, .str r => some (bytesContains l r)
-    | l, r => if typeIndex l == typeIndex r || (l matches .bool _) && (r matches .bool _) then
-        some (cmp l r == .eq) else none
-  def containsAll (l : List JV) : List JV → Bool
-    | [] => true
-    | r :: rs => containsAny r l && containsAll l rs
-  def containsAny (r : JV) : List JV → Bool
-    | [] => false
-    | x :: xs => (match contains x r with | some true => true | _ => false) || containsAny r xs
-  def containsObj (l : List (Bytes × JV)) : List (Bytes × JV) → Bool
-    | [] => true
-    | (k, rv) :: rs =>
-      (match kvLookup k l with
-        | some lv => (match contains lv rv with | some true => true | _ => false)
-        | none => false) && containsObj l rs
-  def bytesContains (l r : Bytes) : Bool :=
-    r.isEmpty || (List.range (l.length + 1)).any fun i => (l.drop i).take r.length == r
-end
-
-def hasPrefix (s p : Bytes) : Bool := s.take p.length == p
-def hasSuffix (s p : Bytes) : Bool := p.length ≤ s.length && s.drop (s.length - p.length) == p
-
-/-- value-level `getpath` (funcGetpath) -/
-def getpath (v : JV) (path : List JV) : NRes :=
-  path.foldlM (fun cur x =>
-    match cur with
-    | .null | .arr _ | .obj _ => funcIndex2 cur x
-    | _ => throw (.builtin "getpathType" [])) v
 
 /-- `_range` outputs: `value, value+step, …` while `Compare(step,0)*Compare(value,end) < 0` -/
 def rangeList (fuel : Nat) (value end_ step : JV) : Option (List JV) :=
@@ -442,29 +71,81 @@ def parseNumberLit (text : String) : Option Num :=
       let q : Rat := (mant : Rat) * (10 : Rat) ^ e
       some (roundRat (if neg then -q else q))
 
-/-- `tostring` on a non-string / `tojson`: the library encoder (none: float digits unmodelled) -/
-def toJsonBytes (v : JV) : Option Bytes :=
-  if Encode.modelled v then some (Encode.encodeValue v) else none
+
+/-- `funcRange`'s argument check (in argument order): func0TypeError{"range", x} -/
+def rangeCheck : List JV → Option Err
+  | [] => none
+  | x :: rest => if isNumber x then rangeCheck rest else some (errFunc0 "range" x)
+
+/-- the first `n` outputs of `rangeIter{value, end, step}` and whether more follow -/
+def rangePrefix (end_ step : JV) : Nat → JV → List JV × Bool
+  | 0, value =>
+    let sgn (o : Ordering) : Int := match o with | .lt => -1 | .eq => 0 | .gt => 1
+    ([], decide (sgn (cmp step (jvInt 0)) * sgn (cmp value end_) < 0))
+  | n + 1, value =>
+    let sgn (o : Ordering) : Int := match o with | .lt => -1 | .eq => 0 | .gt => 1
+    if sgn (cmp step (jvInt 0)) * sgn (cmp value end_) ≥ 0 then ([], false)
+    else match opAdd value step with
+      | .ok next => let r := rangePrefix end_ step n next; (value :: r.1, r.2)
+      | .error _ => ([value], false)
+
+/-- a native whose result is a number computed from the input converted by `toFloat` -/
+def math0 (name : String) (f : Num → Option JV) (v : JV) : Option NRes :=
+  match v with
+  | .num n => (f n.toFlt).map pure
+  | v => some (throw (errFunc0 name v))
+
+/-- `mathFunc2(name, f)`: the INPUT is ignored, the two arguments are converted in order -/
+def math2 (name : String) (x y : JV) : Option NRes :=
+  match x with
+  | .num l =>
+    match y with
+    | .num r => (mathFn2 name l.toFlt r.toFlt).map fun n => pure (.num n)
+    | y => some (throw (errFunc0 name y))
+  | x => some (throw (errFunc0 name x))
+
+/-- `mathFunc3("fma", math.FMA)` -/
+def math3 (name : String) (a b c : JV) : Option NRes :=
+  match a with
+  | .num x =>
+    match b with
+    | .num y =>
+      match c with
+      | .num z => if name == "fma" then some (pure (.num (ffma x.toFlt y.toFlt z.toFlt))) else none
+      | c => some (throw (errFunc0 name c))
+    | b => some (throw (errFunc0 name b))
+  | a => some (throw (errFunc0 name a))
+
+/-- strings longer than this are not materialised by `callNative "_multiply"` -/
+def repeatLimit : Nat := 1000000
+
+def mulGuard (l r : JV) : Bool :=
+  match l, r with
+  | .str s, .num n => decide (repeatSize s n.toFlt > repeatLimit)
+  | .num n, .str s => decide (repeatSize s n.toFlt > repeatLimit)
+  | _, _ => false
 
 /-- result of trying a native: `none` = this native (or this argument shape) is not modelled -/
 def callNative (name : String) (v : JV) (args : List JV) : Option NRes :=
   match name, args with
   | "_add", [l, r] => some (opAdd l r)
   | "_subtract", [l, r] => some (opSub l r)
-  | "_multiply", [l, r] => some (opMul l r)
+  | "_multiply", [l, r] => some (if mulGuard l r then throw errUnmodelled else opMul l r)
   | "_divide", [l, r] => some (opDiv l r)
   | "_modulo", [l, r] => some (opMod l r)
-  | "_alternative", [l, r] => some (pure (if isFalsy l then r else l))
+  | "_alternative", [l, r] => some (pure (opAlt l r))
   | "_equal", [l, r] => some (pure (.bool (opEq l r)))
   | "_notequal", [l, r] => some (pure (.bool (opNe l r)))
   | "_greater", [l, r] => some (pure (.bool (opGt l r)))
   | "_less", [l, r] => some (pure (.bool (opLt l r)))
   | "_greatereq", [l, r] => some (pure (.bool (opGe l r)))
   | "_lesseq", [l, r] => some (pure (.bool (opLe l r)))
-  | "_plus", [] => some (match v with | .num _ => pure v | v => throw (.builtin "unary" [.str (B "plus"), v]))
-  | "_negate", [] => some (match v with | .num n => pure (.num (opNegNum n)) | v => throw (.builtin "unary" [.str (B "negate"), v]))
+  | "_plus", [] => some (opPlus v)
+  | "_negate", [] => some (opNegate v)
   | "_index", [x, i] => some (funcIndex2 x i)
   | "_slice", [x, e, s] => some (funcSlice x e s)
+  | "_range", [a, b, c] => (rangeCheck [a, b, c]).map throw
+  | "_captures", [] => some (funcCaptures v)
   | "abs", [] => some (match v with | .num n => pure (.num (absNum n)) | v => throw (errFunc0 "abs" v))
   | "length", [] => some (match v with
       | .null => pure (jvInt 0)
@@ -473,83 +154,95 @@ def callNative (name : String) (v : JV) (args : List JV) : Option NRes :=
       | .arr xs => pure (jvInt xs.length)
       | .obj kvs => pure (jvInt kvs.length)
       | v => throw (errFunc0 "length" v))
-  | "utf8bytelength", [] => some (match v with | .str s => pure (jvInt s.length) | v => throw (errFunc0 "utf8bytelength" v))
-  | "keys", [] => some (match keysOf v with | some ks => pure (.arr ks) | none => throw (errFunc0 "keys" v))
-  | "has", [x] => some (match v, x with
-      | .arr vs, x => (match toInt? x with
-        | some i => pure (.bool (0 ≤ i ∧ i < vs.length))
-        | none => throw (errFunc1 "has" v x))
-      | .obj kvs, .str k => pure (.bool (kvLookup k kvs).isSome)
-      | .null, _ => pure (.bool false)
-      | v, x => throw (errFunc1 "has" v x))
-  | "add", [] => some (match valuesOf v with | some xs => addAll xs | none => throw (errFunc0 "add" v))
+  | "utf8bytelength", [] => some (funcUtf8ByteLength v)
+  | "keys", [] => some (funcKeys v)
+  | "has", [x] => some (funcHas v x)
+  | "add", [] => some (funcAdd v)
+  | "toboolean", [] => some (funcToBoolean v)
+  | "tonumber", [] => some (funcToNumber v)
+  | "tostring", [] => some (funcToString v)
   | "type", [] => some (pure (.str (B v.typeName)))
-  | "reverse", [] => some (match v with
-      | .null => pure (.arr [])
-      | .arr xs => pure (.arr xs.reverse)
-      | .str s => pure (.str (Utf8.encodeRunes (Utf8.runes s).reverse))
-      | v => throw (errFunc0 "reverse" v))
-  | "contains", [x] => some (match contains v x with | some b => pure (.bool b) | none => throw (errFunc1 "contains" v x))
-  | "inside", [x] => some (match contains x v with | some b => pure (.bool b) | none => throw (errFunc1 "contains" x v))
-  | "startswith", [x] => some (match v, x with | .str s, .str p => pure (.bool (hasPrefix s p)) | v, x => throw (errFunc1 "startswith" v x))
-  | "endswith", [x] => some (match v, x with | .str s, .str p => pure (.bool (hasSuffix s p)) | v, x => throw (errFunc1 "endswith" v x))
-  | "ltrimstr", [x] => some (match v, x with | .str s, .str p => pure (.str (if hasPrefix s p then s.drop p.length else s)) | v, _ => pure v)
-  | "rtrimstr", [x] => some (match v, x with | .str s, .str p => pure (.str (if hasSuffix s p then s.take (s.length - p.length) else s)) | v, _ => pure v)
-  | "tostring", [] => some (match v with
-      | .str _ => pure v
-      | v => match toJsonBytes v with | some b => pure (.str b) | none => throw (.builtin "UNMODELLED" []))
-  | "tojson", [] => some (match toJsonBytes v with | some b => pure (.str b) | none => throw (.builtin "UNMODELLED" []))
-  | "flatten", [] => some (match valuesOf v with | some xs => pure (.arr (flattenAux (-1) xs)) | none => throw (errFunc0 "flatten" v))
-  | "flatten", [d] => some (match valuesOf v with
-      | none => throw (errFunc0 "flatten" v)
-      | some xs => match toFloat? d with
-        | none => throw (errFunc0 "flatten" d)
-        | some (.flt q) => if q < 0 then throw (.builtin "flattenDepth" [d]) else pure (.arr (flattenAux q xs))
-        | some .nzero => pure (.arr (flattenAux 0 xs))
-        | some (.inf false) => pure (.arr (flattenAux (-1) xs))
-        | some _ => throw (.builtin "flattenDepth" [d]))
-  | "min", [] => some (match v with
-      | .arr _ => (match minMaxBy true v v with | .ok r => pure r | .error _ => throw (errFunc0 "min" v))
-      | v => throw (errFunc0 "min" v))
-  | "max", [] => some (match v with
-      | .arr _ => (match minMaxBy false v v with | .ok r => pure r | .error _ => throw (errFunc0 "max" v))
-      | v => throw (errFunc0 "max" v))
-  | "sort", [] => some (match sort v with | .ok r => pure r | .error _ => throw (errFunc0 "sort" v))
-  | "_sort_by", [x] => some (match sortBy v x with | .ok r => pure r | .error _ => throw (errFunc1 "sort_by" v x))
-  | "unique", [] => some (match uniqueBy v v with | .ok r => pure r | .error _ => throw (errFunc0 "unique" v))
-  | "_unique_by", [x] => some (match uniqueBy v x with | .ok r => pure r | .error _ => throw (errFunc1 "unique_by" v x))
-  | "_group_by", [x] => some (match groupBy v x with | .ok r => pure r | .error _ => throw (errFunc1 "group_by" v x))
-  | "_min_by", [x] => some (match minMaxBy true v x with | .ok r => pure r | .error _ => throw (errFunc1 "min_by" v x))
-  | "_max_by", [x] => some (match minMaxBy false v x with | .ok r => pure r | .error _ => throw (errFunc1 "max_by" v x))
-  | "getpath", [p] => some (match p with
-      | .arr path => (match getpath v path with
-        | .ok r => pure r
-        | .error _ => throw (errFunc1 "getpath" v p))
-      | p => throw (errFunc1 "getpath" v p))
+  | "reverse", [] => some (funcReverse v)
+  | "contains", [x] => some (funcContains v x)
+  | "inside", [x] => some (funcInside v x)
+  | "indices", [x] => some (indexFunc .all v x)
+  | "index", [x] => some (indexFunc .first v x)
+  | "rindex", [x] => some (indexFunc .last v x)
+  | "startswith", [x] => some (funcStartsWith v x)
+  | "endswith", [x] => some (funcEndsWith v x)
+  | "ltrimstr", [x] => some (funcLtrimstr v x)
+  | "rtrimstr", [x] => some (funcRtrimstr v x)
+  | "trimstr", [x] => some (funcTrimstr v x)
+  | "ltrim", [] => some (funcLtrim v)
+  | "rtrim", [] => some (funcRtrim v)
+  | "trim", [] => some (funcTrim v)
+  | "explode", [] => some (funcExplode v)
+  | "implode", [] => some (funcImplode v)
+  | "split", [x] => some (funcSplit v x)
+  | "join", [x] => some (funcJoin v x)
+  | "ascii_downcase", [] => some (funcAsciiDowncase v)
+  | "ascii_upcase", [] => some (funcAsciiUpcase v)
+  | "tojson", [] => some (funcToJSON v)
+  | "fromjson", [] => some (funcFromJSON v)
+  | "format", [x] => some (funcFormat v x)
+  | "_tohtml", [] => some (funcToHTML v)
+  | "_touri", [] => some (funcToURI v)
+  | "_tourid", [] => some (funcToURId v)
+  | "_tocsv", [] => some (funcToCSV v)
+  | "_totsv", [] => some (funcToTSV v)
+  | "_tosh", [] => some (funcToSh v)
+  | "_tobase64", [] => some (funcToBase64 v)
+  | "_tobase64d", [] => some (funcToBase64d v)
+  | "flatten", [] => some (funcFlatten v [])
+  | "flatten", [d] => some (funcFlatten v [d])
+  | "min", [] => some (funcMin v)
+  | "max", [] => some (funcMax v)
+  | "_min_by", [x] => some (liftSort "min_by" true v x (minMaxBy true v x))
+  | "_max_by", [x] => some (liftSort "max_by" true v x (minMaxBy false v x))
+  | "sort", [] => some (liftSort "sort" false v v (sort v))
+  | "_sort_by", [x] => some (liftSort "sort_by" true v x (sortBy v x))
+  | "_group_by", [x] => some (liftSort "group_by" true v x (groupBy v x))
+  | "unique", [] => some (liftSort "unique" false v v (uniqueBy v v))
+  | "_unique_by", [x] => some (liftSort "unique_by" true v x (uniqueBy v x))
+  | "frexp", [] => math0 "frexp" (fun n => let r := ffrexp n; some (.arr [.num r.1, jvInt r.2])) v
+  | "modf", [] => math0 "modf" (fun n => let r := fmodf n; some (.arr [.num r.1, .num r.2])) v
+  | "fma", [a, b, c] => math3 "fma" a b c
+  | "infinite", [] => some (pure (.num (.inf false)))
+  | "nan", [] => some (pure (.num .nan))
+  | "isnan", [] => some (match v with
+      | .num n => pure (.bool n.toFlt.isNaN)
+      | .null => pure (.bool false)
+      | v => throw (errFunc0 "isnan" v))
+  | "isinfinite", [] => some (pure (.bool (match v with | .num n => fisinf n.toFlt | _ => false)))
+  | "isfinite", [] => some (pure (.bool (match v with | .num n => !fisinf n.toFlt | _ => false)))
+  | "isnormal", [] => some (pure (.bool (match v with | .num n => fisnormal n.toFlt | _ => false)))
+  | "setpath", [p, n] => some (funcSetpath v p n)
+  | "delpaths", [p] => some (funcDelpaths v p)
+  | "getpath", [p] => some (funcGetpath v p)
+  | "transpose", [] => some (funcTranspose v)
+  | "bsearch", [t] => some (funcBsearch v t)
+  | "gmtime", [] => some (funcGmtime v)
+  | "mktime", [] => some (funcMktime v)
+  | "localtime", [] => (match v with | .num _ => none | v => some (throw (errFunc0 "localtime" v)))
+  | "strftime", [x] => (strftimeDispatch "strftime" true v x).map throw
+  | "strflocaltime", [x] => (strftimeDispatch "strflocaltime" false v x).map throw
+  | "strptime", [x] => (match v, x with | .str _, .str _ => none | v, x => some (throw (errFunc1 "strptime" v x)))
   | "error", [] => some (throw (.user v))
   | "error", [x] => some (throw (.user x))
   | "halt", [] => some (throw (.halt .null 0))
-  | "not", [] => none
-  | "infinite", [] => some (pure (.num (.inf false)))
-  | "nan", [] => some (pure (.num .nan))
-  | "isnan", [] => some (match v with | .num n => pure (.bool n.toFlt.isNaN) | v => throw (errFunc0 "isnan" v))
-  | "isinfinite", [] => some (match v with | .num n => pure (.bool (match n.toFlt with | .inf _ => true | _ => false)) | v => throw (errFunc0 "isinfinite" v))
-  | "isfinite", [] => some (match v with | .num n => pure (.bool (match n.toFlt with | .inf _ => false | _ => true)) | v => throw (errFunc0 "isfinite" v))
-  | "explode", [] => some (match v with | .str s => pure (.arr ((Utf8.runes s).map fun r => jvInt (r : Nat))) | v => throw (errFunc0 "explode" v))
-  | "ascii_downcase", [] => some (match v with
-      | .str s => pure (.str (s.map fun c => if 65 ≤ c.toNat ∧ c.toNat ≤ 90 then c + 32 else c))
-      | v => throw (errFunc0 "ascii_downcase" v))
-  | "ascii_upcase", [] => some (match v with
-      | .str s => pure (.str (s.map fun c => if 97 ≤ c.toNat ∧ c.toNat ≤ 122 then c - 32 else c))
-      | v => throw (errFunc0 "ascii_upcase" v))
-  | "floor", [] => some (match v with | .num n => pure (.num (ffloor n.toFlt)) | v => throw (errFunc0 "floor" v))
-  | "ceil", [] => some (match v with | .num n => pure (.num (fceil n.toFlt)) | v => throw (errFunc0 "ceil" v))
-  | "fabs", [] => some (match v with | .num n => pure (.num (fabs n.toFlt)) | v => throw (errFunc0 "fabs" v))
-  | "toboolean", [] => some (match v with
-      | .bool _ => pure v
-      | .str s => if s == B "true" then pure (.bool true) else if s == B "false" then pure (.bool false)
-        else throw (errFunc0 "toboolean" v)
-      | v => throw (errFunc0 "toboolean" v))
-  | _, _ => none
+  | "halt_error", [] => some (throw (.halt v 5))
+  | "halt_error", [x] => some (match toInt? x with
+      | some code => throw (.halt v code)
+      | none => throw (errFunc0 "halt_error" x))
+  | name, args =>
+    if mathFunc1Names.contains name then
+      match args with
+      | [] => math0 name (fun n => (mathFn1 name n).map .num) v
+      | _ => none
+    else if mathFunc2Names.contains name then
+      match args with
+      | [x, y] => math2 name x y
+      | _ => none
+    else none
 
 end Gojq
